@@ -93,6 +93,31 @@ def stub_valid(p):
     return run
 
 
+def long_text(p):
+    """long inputs: one concrete string of n characters (n crosses the 1024 / 4096 byte marks in utf-16 / utf-32) followed by one symbolic code point; the encoded stream
+    is cut at a solver-chosen odd or even offset followed by a chunk of 1024 bytes and more; everything else as in the round-trip family"""
+    enc, n = p['enc'], p['n']
+    hi = 0xFF if enc == 'latin-1' else 0x10FFFF
+
+    def body(a):
+        c, x = a
+        items = ['ab' * (n // 2), chr(c)]
+        encd, done = [], []
+        _with_stub(lambda: D.src(items).pipe(codec.encode(encoding=enc)).subscribe(on_next=encd.append, on_error=lambda e: done.append(('ERR', repr(e))), on_completed=lambda: done.append('C')))
+        if done != ['C']:
+            return fail(stage='encode', done=done)
+        whole = b''.join(encd)
+        if enc in BOM and (whole[:len(BOM[enc])] != BOM[enc] or whole.count(BOM[enc]) != (1 if c != 0xFEFF else whole.count(BOM[enc]))):
+            return fail(stage='bom', problem='byte-order mark count', count=whole.count(BOM[enc]))
+        c1 = [1, 2, 3, 4][_sel(x, 4)]
+        chunks = [whole[:c1], whole[c1:c1 + 1024], whole[c1 + 1024:c1 + 1024 + 2050], whole[c1 + 1024 + 2050:]]
+        out, done2 = [], []
+        _with_stub(lambda: D.src(chunks).pipe(codec.decode(encoding=enc)).subscribe(on_next=out.append, on_error=lambda e: done2.append(('ERR', repr(e))), on_completed=lambda: done2.append('C')))
+        got, exp = ''.join(out), ''.join(items)
+        return (done2 == ['C'] and got == exp) or fail(enc=enc, chars=n, first_cut=c1, done=done2, lengths=(len(got), len(exp)), tail=(got[-3:], exp[-3:]))
+    return mk('codec_long', [('c', 'int'), ('x', 'int')], ['0 <= c <= %d and not (0xD800 <= c <= 0xDFFF)' % hi, '0 <= x <= 3'], body)
+
+
 def json_path(p):
     """the decode step as rxsci.container.json.load_from_file composes it (file.read chunks -> decode -> line.unframe -> load): the harness of C19 with a short read
     at a given byte position, here for multi-byte characters cut by the read boundary"""
@@ -100,7 +125,7 @@ def json_path(p):
     return C19.file_rt(dict(lens=p['lens'], compression=p.get('compression'), c1=p['c1'], as_bytes=True, encoding=p.get('encoding', 'utf-8')))
 
 
-FAMILIES = {'roundtrip': roundtrip, 'stub_valid': stub_valid, 'json_path': json_path}
+FAMILIES = {'roundtrip': roundtrip, 'stub_valid': stub_valid, 'json_path': json_path, 'long_text': long_text}
 WIDTH = {'utf-8': 4, 'utf-16': 4, 'utf-32': 4, 'latin-1': 1}
 
 
@@ -120,6 +145,8 @@ def obligations(tier, seed):
                               bound=dict(encoding=enc, code_points_per_string=lens, first_cut=c1, second_cut='symbolic')))
     for c1 in range(1, 13 if q else 17):
         obs.append(Ob(PROP, 'json_path', dict(lens=[1, 1], c1=c1), budget=b, group='json_path', bound=dict(object_chars=[1, 1], short_read_at=c1, encoding='utf-8 through json.load_from_file')))
+    for enc, n in ((('utf-16', 2100), ('utf-32', 1100), ('utf-8', 4200)) if q else (('utf-16', 2100), ('utf-32', 1100), ('utf-8', 4200), ('utf-16', 9000), ('latin-1', 5000))):
+        obs.append(Ob(PROP, 'long_text', dict(enc=enc, n=n), budget=b, group='long_text', bound=dict(encoding=enc, characters=n, chunks='a 1024-byte and a 2050-byte chunk at a solver-chosen offset')))
     for comp in (None, 'gzip', 'zstd'):
         for lens in ([0, 0, 0], [1, 0]):
             obs.append(Ob(PROP, 'json_path', dict(lens=lens, c1=3, compression=comp, encoding='utf-16'), budget=b, group='json_path', bound=dict(object_chars=lens, encoding='utf-16 through json.dump_to_file / load_from_file', compression=comp)))
